@@ -29,7 +29,7 @@ class C05(Check):
                 "Pox.C05.once_removed", "Pox.C05.unsubscribe_exact", "Pox.C05.sources_independent", "Pox.C05.noerrors_partial",
                 "Pox.C05.noerrors_defect", "Pox.C05.undeclared_rejected", "Pox.C05.weak_gone", "Pox.C05.lazy_init",
                 "Pox.C05.once_raises_defect", "Pox.C05.noerrors_fixed", "Pox.C05.once_removed_raising", "Pox.C05.insertion_position",
-                "Pox.C05.bind_prefix_exact", "Pox.Revent.drive_eq_run"]
+                "Pox.C05.bind_prefix_exact", "Pox.C05.weak_midflight", "Pox.Revent.drive_eq_run"]
     # name-based anchors, resolved on the current source at every run (robust to line shifts); the range of a definition
     # starts at its first statement after the docstring (the `def` line itself only runs at import time)
     ANCHORED = [("pox/lib/revent/revent.py", q) for q in (
@@ -57,7 +57,7 @@ class C05(Check):
             out.append((rel, body[0].lineno, r[1]))
         return out
 
-    # which of the proposed repairs D24 / D60 the tree has, read off the source (AST shapes; an unknown shape is an error, not a guess)
+    # which of the proposed repairs D24 / D60 the tree has, read off the source (AST shapes; an unknown shape is modelled as the unrepaired code and recorded in the evidence)
     D24_SHAPES = {False: "raise",
                   True: "eventType = event.__class__ if isinstance(event, Event) else event\n"
                         "if self._eventMixin_events is not True and eventType not in self._eventMixin_events:\n    raise\n"
@@ -82,9 +82,18 @@ class C05(Check):
         out = {}
         for name, text, shapes in (("d24", t24, self.D24_SHAPES), ("d60", t60, self.D60_SHAPES)):
             hits = [k for k, shape in shapes.items() if text == shape or (name == "d60" and text.startswith(shape + "\n"))]
-            if len(hits) != 1: raise RuntimeError("revent.py: %s site has a shape the C05 model does not know:\n%s" % (name, text[:400]))
-            out[name] = hits[0]
+            if len(hits) != 1:
+                # not one of the two known shapes: check the tree against the model of the code as it stands (the oracle and the
+                # correspondence then say what the change does); the evidence records that the shape was not recognised
+                common.log("C05: revent.py %s site has an unknown shape; modelled as unrepaired:\n%s" % (name, text[:300]))
+                self.unknown_shapes.append(name)
+                out[name] = False
+            else:
+                out[name] = hits[0]
         return out
+
+    def extra_evidence(self):
+        return {"variant": self.variant, "variant_sites_with_unknown_shape": self.unknown_shapes}
 
     trusted_base = ["model Model/Revent.lean hand-written from EventMixin (raiseEvent*, addListener*, removeListener, autoBindEvents, "
                     "CallProxy, lazy _eventMixin_init, event.halt) as repaired by D01 and D28; tied to the code by this correspondence run",
@@ -98,25 +107,27 @@ class C05(Check):
                    "`continue` skips the test at 315) -- modelled as the code does it, reported as an observation",
                    "raiseEvent is given an Event instance or an Event subclass; the exception hook handleEventException does not raise",
                    "declared event classes have distinct __name__s (by-name subscription is otherwise dict-order dependent)",
-                   "an owner of weak handlers is only collected while none of its handlers sits in an in-flight snapshot (drop is a top-level op)",
+                   "an owner of weak handlers is not released while one of its own methods is executing (CPython would keep it alive until the "
+                   "method returns; harness and model both treat such a drop as a no-op); any other moment is allowed, also mid-delivery",
                    "single-threaded; sources interact only through handlers and the global event-id counter"]
     design_ref = "DESIGN.md §5 C05"
     technique = ("Lean 4 proof (invariants of a small-step machine with an explicit stack of delivery frames, for all handler behaviours and "
                  "all histories) + differential correspondence of the compiled model against real EventMixin objects with scripted handlers "
                  "+ independent Python oracle of the property over the observed invocation log")
-    level_text = ("Theorems reachable_inv / sorted_inv / delivery_exact / delivery_order / reentrant_safe / once_removed / unsubscribe_exact / "
-                  "sources_independent / noerrors_partial / undeclared_rejected / weak_gone / lazy_init over the model of EventMixin: for any number of "
-                  "sources sharing the event-id counter, every operation history, every handler behaviour (handlers that subscribe, unsubscribe and "
-                  "raise re-entrantly on any source to any depth, assign event.halt, return any value or raise) and every number of machine steps. "
-                  "noerrors_defect and once_raises_defect are kernel-checked witnesses of the two open findings D24 / D60 (the full statements "
-                  "noerrors_full / once_strict are kept as defs). drive_eq_run: the driver's early-exit loop computes `run`.")
+    level_text = ("Theorems reachable_inv / sorted_inv / insertion_position / delivery_exact / delivery_order / reentrant_safe / once_removed / "
+                  "unsubscribe_exact / bind_prefix_exact / sources_independent / noerrors_partial / undeclared_rejected / weak_gone / weak_midflight / "
+                  "lazy_init over the model of EventMixin: for any number of sources sharing the event-id counter, every operation history, every handler "
+                  "behaviour (handlers that subscribe, unsubscribe, raise and collect owners re-entrantly on any source to any depth, assign event.halt, "
+                  "return any value or raise) and every number of machine steps. The model is parameterised by which of the repairs D24 / D60 the tree has "
+                  "(read off the source on every run): noerrors_defect / once_raises_defect are kernel-checked witnesses for the tree as it stands, "
+                  "noerrors_fixed / once_removed_raising the full statements for the repaired variants. drive_eq_run: the driver's early-exit loop computes `run`.")
     level_note = ("Trusted: Lean kernel, axioms propext/Classical.choice/Quot.sound, the hand-written model Model/Revent.lean (which mirrors the code "
                   "after fixes D01 and D28) and this harness. The theorems are about the model; the run ties it to the code on exhaustive small "
                   "histories and random histories of up to 80 operations on one or two sources with re-entrant, cross-source scripts. Event types "
                   "are opaque identities in the model; the harness realises them as a class hierarchy (Ev3(Ev0), Ev4(Ev2), Ev5(Ev3)).")
     rule = ("case = 1-2 sources (declared set over 6 event classes with inheritance, accept-all, lazily initialised) + operation history (subscribe "
             "with priority/once/weak/by-name/autoBind, unsubscribe in all 5 argument forms, raise in instance/class form with and without error "
-            "suppression, clear, count, owner collection; every op names its source) + per-handler scripts (event.halt assignment, nested actions "
+            "suppression, clear, count, removeListeners, autoBind with method-name prefixes, owner collection also from inside handlers; every op names its source) + per-handler scripts (event.halt assignment, nested actions "
             "on any source, return value); corpus = hand-written seeds + every history of <= 3 ops (at least one subscribe and one raise) over a "
             "14-op alphabet under 8 script profiles; generated = random histories of 3..80 ops with random scripts (thorough: + every 4-op history "
             "under one profile); non-trivial = some delivery invoked >= 2 handlers or a handler performed a nested action")
@@ -127,6 +138,7 @@ class C05(Check):
         poxenv.boot(openflow=False)
         import pox.lib.revent.revent as rv
         self.rv = rv
+        self.unknown_shapes = []
         self.variant = self.detect_variant()
         self.Ev = []
         def __init__(self, fid=None):
